@@ -23,6 +23,7 @@ HEADER = ('From Coq Require Import ZArith QArith List Bool. Import ListNotations
           'Require Import SC3.lib.PyNum SC3.model.KProg SC3.model.KNrt SC3.model.KRt SC3.model.KCmp SC3.model.KRand SC3.model.KAgree.\n')
 FUEL = 500
 SIG_CROSS = 'C10:cross-clock-order-follows-physical-time'
+SIG_DUP = 'C10:nrt-two-pending-wakeups-after-reschedule'
 NREQ = 10
 
 
@@ -91,11 +92,22 @@ def gen_xprog(rng, profile):
     tempos = [rng.choice(TEMPI) for _ in range(ntempo)]
     clocks = ['S'] + [['T', i] for i in range(ntempo)]
     nb = rng.randint(2, 5)
-    home = ['S'] + [rng.choice(clocks) for _ in range(nb - 1)]
+    # a GROUP = a routine played across clocks (or the root) and what it plays on its own clock: in the
+    # 'groups' profile only the members of one group communicate (the start of a group head is performed
+    # by another clock's thread, so its order relative to the OTHER routines of its clock follows physical time)
+    home, grp = ['S'], [0]
+    for t in range(1, nb):
+        if rng.random() < 0.45:
+            grp.append(t)
+            home.append(rng.choice(clocks))
+        else:
+            j = rng.randrange(t)
+            grp.append(grp[j])
+            home.append(home[j])
     nconds = rng.randint(0, 2)
-    nflows = rng.randint(0, 2)
-    chome = [rng.choice(clocks) for _ in range(nconds)]
-    fhome = [rng.choice(clocks) for _ in range(nflows)]
+    nflows = rng.choice([0, 1, 1, 2])
+    cgrp = [rng.choice(grp) for _ in range(nconds)]
+    fgrp = [rng.choice(grp) for _ in range(nflows)]
     scale = Fraction(1, 32) if rt else Fraction(1)
     free = profile == 'nrt'
     needs_seed = set()
@@ -103,12 +115,22 @@ def gen_xprog(rng, profile):
     def delta():
         return str(Fraction(rng.choice(DELTAS)) * scale)
 
-    def pick(items, h, homes):
-        cands = [i for i in range(items) if free or homes[i] == h]
+    def pick(items, g, grps):
+        cands = [i for i in range(items) if free or grps[i] == g]
         return rng.choice(cands) if cands else None
+
+    def play_act(j, t):
+        if free:
+            return ['F', t] if rng.random() < 0.3 else ['P', t, rng.choice(clocks + (['A'] if rng.random() < 0.2 else []))]
+        if grp[t] == grp[j]:
+            return ['F', t] if rng.random() < 0.5 else ['P', t, home[j]]
+        if grp[t] == t:
+            needs_seed.add(t)
+            return ['P', t, home[t]]
+        return None
     bodies = []
     for j in range(nb):
-        h = home[j]
+        h, g = home[j], grp[j]
         body = []
         nplay = 0
         for _ in range(rng.randint(3, 9)):
@@ -119,16 +141,10 @@ def gen_xprog(rng, profile):
                 lat = rng.choice(K.LATS)
                 body.append(['S', lat, K.gen_elems(rng, lat, 2, valid=rng.random() > 0.1)])
             elif r < 0.52:
-                if j + 1 < nb and nplay < 2:
+                a = play_act(j, rng.randint(j + 1, nb - 1)) if (j + 1 < nb and nplay < 2) else None
+                if a is not None:
                     nplay += 1
-                    t = rng.randint(j + 1, nb - 1)
-                    if free:
-                        body.append(['F', t] if rng.random() < 0.3 else ['P', t, rng.choice(clocks + (['A'] if rng.random() < 0.2 else []))])
-                    elif home[t] == h:
-                        body.append(['F', t] if rng.random() < 0.5 else ['P', t, h])
-                    else:
-                        body.append(['P', t, home[t]])
-                        needs_seed.add(t)
+                    body.append(a)
                 else:
                     body.append(['D', rng.randrange(NREQ)])
             elif r < 0.68:
@@ -136,11 +152,11 @@ def gen_xprog(rng, profile):
             elif r < 0.73:
                 body.append(['seed', rng.choice([1, 2, 3, 12345, 7])])
             elif r < 0.79:
-                c = pick(nconds, h, chome)
+                c = pick(nconds, g, cgrp)
                 if c is not None:
                     body.append(['W', c])
             elif r < 0.86:
-                c = pick(nconds, h, chome)
+                c = pick(nconds, g, cgrp)
                 if c is not None:
                     if rng.random() < 0.7:
                         body.append(['test', c, True])
@@ -149,16 +165,16 @@ def gen_xprog(rng, profile):
                         body.append(['sig', c])
                     else:
                         body.append(['test', c, rng.random() < 0.5])
-            elif r < 0.90:
-                f = pick(nflows, h, fhome)
+            elif r < 0.905:
+                f = pick(nflows, g, fgrp)
                 if f is not None:
                     body.append(['fget', f])
             elif r < 0.94:
-                f = pick(nflows, h, fhome)
+                f = pick(nflows, g, fgrp)
                 if f is not None:
                     body.append(['fset', f, rng.randint(0, 99)])
             elif r < 0.975:
-                cands = [t for t in range(1, nb) if (free or (home[t] == h and t != j))]
+                cands = [t for t in range(1, nb) if (free or (grp[t] == g and t != j))]
                 if cands:
                     t = rng.choice(cands)
                     body.append([rng.choice(['pause', 'resume']), t])
@@ -166,19 +182,16 @@ def gen_xprog(rng, profile):
                         body.append(['Y', delta()])
                         body.append(['resume', t])
             elif r < 0.99:
-                if ntempo and (free or h != 'S'):
+                alone = len({grp[t] for t in range(nb) if home[t] == h}) == 1
+                if ntempo and (free or (h != 'S' and alone)):
                     i = rng.randrange(ntempo) if free else h[1]
                     body.append(['T', i, rng.choice(TEMPI)])
             else:
                 body.append(['R'])
         if j + 1 < nb and nplay == 0 and rng.random() < (0.9 if j == 0 else 0.5):
-            t = j + 1
-            pos = rng.randint(0, len(body))
-            if free or home[t] == h:
-                body.insert(pos, ['F', t] if rng.random() < 0.5 else ['P', t, home[t] if not free else rng.choice(clocks)])
-            else:
-                body.insert(pos, ['P', t, home[t]])
-                needs_seed.add(t)
+            a = play_act(j, j + 1)
+            if a is not None:
+                body.insert(rng.randint(0, len(body)), a)
         bodies.append(body)
     for t in needs_seed:
         bodies[t].insert(0, ['seed', 100 + t])
@@ -194,7 +207,11 @@ def gen_xprog(rng, profile):
 CROSS_PROG = {'tempos': ['1'], 'bodies': [[['seed', 5], ['P', 1, 'S'], ['P', 2, ['T', 0]], ['Y', '1/8']],
                                           [['Y', '1/32'], ['D', 0]], [['Y', '9/256'], ['D', 0]]],
               'nconds': 0, 'nflows': 0, 'mseed': 1, 'tail': '0'}
+DUP_PROG = {'tempos': [], 'bodies': [[['P', 1, 'S'], ['pause', 1], ['resume', 1]],
+                                     [['Y', '1/4'], ['S', '0', [['m', 1]]], ['Y', '1/4'], ['S', '0', [['m', 2]]]]],
+            'nconds': 0, 'nflows': 0, 'mseed': 1, 'tail': '0'}
 FIXED = [
+    DUP_PROG,
     # the example of the documentation guide, inheritance and re-seeding, pause/resume, flow variable across clocks
     {'tempos': ['2'], 'bodies': [[['seed', 7], ['D', 0], ['P', 1, ['T', 0]], ['seed', 7], ['D', 0], ['D', 1], ['Y', '1/4'], ['pause', 1],
                                   ['Y', '1/2'], ['resume', 1], ['Y', '1'], ['fset', 0, 42], ['S', '1/8', [['m', 3]]], ['Y', '1']],
@@ -324,15 +341,54 @@ def rt_item(p, o):
                                              '(%s : list event)' % clist(o['events'], K.event), '(%s : list vevent)' % clist(o['vals'], vevent))
 
 
+def impl_tagged(ctx, tag, payload, mode, hashseed='0', extra_env=None, timeout=900):
+    """ctx.impl with its own file names, so that several runs can go on at the same time"""
+    inp = os.path.join(ctx.work, 'impl_c10_%s_%d_in.json' % (tag, os.getpid()))
+    outp = os.path.join(ctx.work, 'impl_c10_%s_%d_out.json' % (tag, os.getpid()))
+    with open(inp, 'w') as f:
+        json.dump(payload, f)
+    env = dict(os.environ)
+    env.update({'PYTHONPATH': fw.REPO + os.pathsep + os.path.join(fw.VERIF, 'harness'), 'PYTHONHASHSEED': str(hashseed),
+                'SC3_MODE': mode, 'PYTHONWARNINGS': 'ignore'})
+    if extra_env:
+        env.update(extra_env)
+    if os.path.exists(outp):
+        os.remove(outp)
+    rc, out = fw.sh([fw.PY, '-W', 'ignore', os.path.join(fw.VERIF, 'harness', 'impl', 'c10_script.py'), inp, outp],
+                    timeout=timeout, cwd=ctx.work, env=env)
+    if rc != 0 or not os.path.exists(outp):
+        raise fw.ImplError('impl runner c10_script (%s) failed rc=%s\n%s' % (tag, rc, out[-3000:]))
+    with open(outp) as f:
+        return json.load(f)['out']
+
+
+def par(jobs):
+    """run thunks concurrently, return their results in order (exceptions re-raised)"""
+    import concurrent.futures as cf
+    with cf.ThreadPoolExecutor(max_workers=max(1, len(jobs))) as ex:
+        futs = [ex.submit(j) for j in jobs]
+        return [f.result() for f in futs]
+
+
 def port(ctx, k):
-    return 60000 + (os.getpid() * 13 + ctx.seed * 101 + k * 57) % 4000
+    return 60000 + (os.getpid() * 13 + ctx.seed * 101 + k * 57) % 4500
 
 
-def run_rt(ctx, cases, k=0, delay=None):
-    payload = {'cases': cases, 'seed': ctx.seed + k}
-    if delay:
-        payload['delay'] = delay
-    return ctx.impl('c10_script', payload, mode='rt', timeout=900, extra_env={'SC3_LIB_PORT': str(port(ctx, k))})['out']
+def run_rt(ctx, cases, k=0, delay=None, nproc=6):
+    """RT runs take real time: split the cases over nproc processes (own port ranges)"""
+    if delay or len(cases) < 2 * nproc:
+        payload = {'cases': cases, 'seed': ctx.seed + k}
+        if delay:
+            payload['delay'] = delay
+        return impl_tagged(ctx, 'rt%d' % k, payload, 'rt', extra_env={'SC3_LIB_PORT': str(port(ctx, k))})
+    chunks = [cases[i::nproc] for i in range(nproc)]
+    outs = par([(lambda i=i: impl_tagged(ctx, 'rt%d_%d' % (k, i), {'cases': chunks[i], 'seed': ctx.seed + k + i}, 'rt',
+                                         extra_env={'SC3_LIB_PORT': str(port(ctx, 10 * k + i + 3))})) for i in range(nproc)])
+    res = [None] * len(cases)
+    for i in range(nproc):
+        for j, o in enumerate(outs[i]):
+            res[i + j * nproc] = o
+    return res
 
 
 def correspond(ctx):
@@ -342,14 +398,14 @@ def correspond(ctx):
     corpus = os.path.join(fw.VERIF, 'corpus', 'C10_programs.json')
     if os.path.exists(corpus):
         nrt_cases += json.load(open(corpus))
-    nrt_cases += [gen_xprog(rng, 'nrt') for _ in range(ctx.n(300, 2000))]
-    rt_cases = [gen_xprog(rng, 'single' if i % 2 == 0 else 'groups') for i in range(ctx.n(80, 400))]
+    nrt_cases += [gen_xprog(rng, 'nrt') for _ in range(ctx.n(700, 3000))]
+    rt_cases = [gen_xprog(rng, 'single' if i % 2 == 0 else 'groups') for i in range(ctx.n(180, 900))]
     cases = nrt_cases + rt_cases
     first_rt = len(nrt_cases)
 
     # (a) two fresh non-real-time processes (different hash seeds): byte-identical scores, same values
-    A = ctx.impl('c10_script', {'cases': cases}, mode='nrt', hashseed='0')['out']
-    B = ctx.impl('c10_script', {'cases': cases}, mode='nrt', hashseed='7')['out']
+    A, B = par([lambda: impl_tagged(ctx, 'nrtA', {'cases': cases}, 'nrt', hashseed='0'),
+                lambda: impl_tagged(ctx, 'nrtB', {'cases': cases}, 'nrt', hashseed='7')])
     c.evaluations += 2 * len(cases)
     items, idx = [], []
     for i, (p, a, b) in enumerate(zip(cases, A, B)):
@@ -380,20 +436,45 @@ def correspond(ctx):
             c.nontriv(('nrt', json.dumps(p, sort_keys=True)))
         items.append(nrt_item(p, a))
         idx.append(i)
-    body = 'Eval vm_compute in bad_idx (fun c => match c with (p, tab, o) => Nat.eqb (xnrt_compare tab p %d o) 0 end) cases.' % FUEL
+    body = 'Eval vm_compute in bad_idx (fun c => match c with (p, tab, o) => Nat.eqb (xnrt_compare true tab p %d o) 0 end) cases.' % FUEL
     bad, errs = fw.check_shards(ctx, 'nrt', HEADER, items, body, shard=40)
     for e in errs:
         c.failures.append(Failure('correspondence', 'coq evaluation failed: ' + e[-1500:]))
     names = {1: 'the model does not terminate within the fuel', 2: 'event logs differ (logical times, plays, stamped bundles)',
              3: 'scores differ', 4: 'elapsed_time() differs', 5: 'logged values (draws, flow variables) differ'}
+    as_found = set()          # cases the implementation runs as the model of the code AS FOUND does
     if bad:
-        items2 = [items[j] for j in bad[:40]]
-        body2 = 'Eval vm_compute in map (fun c => match c with (p, tab, o) => xnrt_compare tab p %d o end) cases.' % FUEL
-        res = ctx.coq_shards('nrt_explain', HEADER, items2, body2, shard=40)
-        codes = fw.parse_nat_list(res[0][1]) if res and res[0][0] == 0 else None
-        for n_, j in enumerate(bad[:40]):
+        items2 = [items[j] for j in bad]
+        body2 = ('Eval vm_compute in flat_map (fun c => match c with (p, tab, o) => '
+                 '[xnrt_compare true tab p %d o; xnrt_compare false tab p %d o] end) cases.' % (FUEL, FUEL))
+        codes = []
+        for rc, out, base in ctx.coq_shards('nrt_explain', HEADER, items2, body2, shard=30):
+            cs = fw.parse_nat_list(out) if rc == 0 else None
+            n_here = min(30, len(items2) - base)
+            codes.extend(cs if cs is not None and len(cs) == 2 * n_here else [None] * (2 * n_here))
+        reported = False
+        for n_, j in enumerate(bad):
             i = idx[j]
-            code = codes[n_] if codes else None
+            code = codes[2 * n_]
+            code_found = codes[2 * n_ + 1]
+            if code_found == 0:
+                as_found.add(i)
+                c.count('nrt:runs-as-the-code-as-found (two pending wake-ups after a re-schedule)')
+                if not reported:
+                    reported = True
+                    ra = [(e[1], e[2], e[4]) for e in A[i]['events'] if e[0] == 'resume']
+                    c.failures.append(Failure(
+                        'correspondence',
+                        'NRT: a routine that is scheduled again while it has a pending wake-up (pause(); resume(), or a signal after a resume) '
+                        'is woken TWICE in non-real-time mode (every sched() makes a new ClockTask) and once in real time (TaskQueue keeps one entry '
+                        'per task): the score differs from what real time sends. Resumptions (routine, k, seconds): %s. Program: %s'
+                        % (ra[:12], json.dumps(cases[i])),
+                        signature=SIG_DUP, theorem='rt_nrt_agree_partial', found_input=True,
+                        replay={'program': cases[i], 'observed_events': A[i]['events'], 'observed_score': A[i]['score'],
+                                'expected': 'the model of the repaired code (obs_nrt) and the real-time run: one wake-up',
+                                'how': 'SC3_MODE=nrt PYTHONPATH=$SC3_REPO:/verif/harness python harness/impl/c10_script.py in.json out.json '
+                                       '(in.json = {"cases": [program]}); compare with SC3_MODE=rt'}))
+                continue
             c.failures.append(Failure('correspondence', 'NRT: model and implementation disagree (%s). Program: %s' % (names.get(code, code), json.dumps(cases[i])),
                                       replay={'program': cases[i], 'observed_events': A[i]['events'], 'observed_vals': A[i]['vals'],
                                               'observed_score': A[i]['score'], 'code': code}, theorem='rt_nrt_agree_partial'))
@@ -413,7 +494,9 @@ def correspond(ctx):
         c.count('rt:%s:wakeups:%d' % ('single-clock' if is_single(p) else 'several-clocks', min(12, len(r['schedule']))))
         c.nontriv(('rt', json.dumps(p, sort_keys=True)))
         d = diff_runs(p, a, r, is_single(p))
-        if d:
+        if d and (first_rt + j) in as_found:
+            c.count('rt:differs-from-NRT because of the two pending wake-ups (reported once)')
+        elif d:
             c.failures.append(Failure('correspondence', 'RT run under jitter differs from the NRT run of the same program: %s. Program: %s' % (d[:1500], json.dumps(p)),
                                       theorem='rt_nrt_agree', found_input=True,
                                       replay={'program': p, 'nrt_events': a['events'], 'nrt_vals': a['vals'], 'rt_events': r['events'],
@@ -443,7 +526,7 @@ def correspond(ctx):
     # (c) the cross-clock witness on the real library: the SystemClock thread is made late
     try:
         W = run_rt(ctx, [CROSS_PROG], k=1, delay={'clock': 'S', 'seconds': 0.05})[0]
-        a = A[1]
+        a = A[2]
         if W.get('completed') and 'fatal' not in W:
             d = diff_runs(CROSS_PROG, a, W, False)
             c.count('cross-clock experiment: RT %s NRT' % ('differs from' if d else 'agrees with'))
@@ -467,7 +550,7 @@ def correspond(ctx):
               'random.Random(seed); (b) RT under injected jitter: per-routine traces (logical time - start, stamped bundles up to one timetag unit, values) and '
               'the time-sorted bundle multiset equal to the NRT run, and the model replays the recorded wake-up order. non-trivial = two or more '
               'resumptions with a send or a logged value (NRT) / completed under jitter (RT)')
-    c.samples = [{'program': cases[i], 'values': A[i].get('vals', [])[:6]} for i in range(2, min(5, len(cases)))]
+    c.samples = [{'program': cases[i], 'values': A[i].get('vals', [])[:6]} for i in range(3, min(6, len(cases)))]
     return c
 
 
@@ -491,8 +574,9 @@ def search(ctx, failures):
     found = []
     # 1. two NRT runs; 2. RT vs NRT
     cases = [gen_xprog(rng, 'single' if i % 2 else 'groups') for i in range(ctx.n(30, 200))]
-    A = ctx.impl('c10_script', {'cases': cases}, mode='nrt', hashseed='0')['out']
-    B = ctx.impl('c10_script', {'cases': cases}, mode='nrt', hashseed='3')['out']
+    cases = [DUP_PROG] + cases
+    A, B = par([lambda: impl_tagged(ctx, 'sA', {'cases': cases}, 'nrt', hashseed='0'),
+                lambda: impl_tagged(ctx, 'sB', {'cases': cases}, 'nrt', hashseed='3')])
     for p, a, b in zip(cases, A, B):
         if 'fatal' in a or 'fatal' in b:
             continue
@@ -522,7 +606,7 @@ def search(ctx, failures):
         rng.setstate(st)
         p1 = indep_prog(rng, 2)
         pairs.append((p0, p1))
-    outs = ctx.impl('c10_script', {'cases': [x for pr in pairs for x in pr]}, mode='nrt')['out']
+    outs = impl_tagged(ctx, 'sC', {'cases': [x for pr in pairs for x in pr]}, 'nrt')
     for n_, (p0, p1) in enumerate(pairs):
         a, b = outs[2 * n_], outs[2 * n_ + 1]
         if 'fatal' in a or 'fatal' in b:
